@@ -17,7 +17,11 @@ import (
 //     same observable as when it runs alone on a fresh environment;
 //   - Check, the scenario-specific invariant.
 type Scenario struct {
-	Name string
+	// Name is the unique name of the scenario (may contain enumeration artefacts such as design
+	// numbers). SigName, when set, replaces it inside violation signatures: it must be built
+	// from abstract features only.
+	Name    string
+	SigName string
 	// Doc says what collides in this scenario (goes to the evidence).
 	Doc string
 	// Family groups scenarios ("c17", "c20A", ...): the driver selects by family.
@@ -51,6 +55,13 @@ type Scenario struct {
 	ThoroughOnly bool
 	// Horizon is the maximal number of scheduling points of one execution (default 20000).
 	Horizon int
+}
+
+func (s *Scenario) sigName() string {
+	if s.SigName != "" {
+		return s.SigName
+	}
+	return s.Name
 }
 
 func (s *Scenario) label(i int) string {
